@@ -174,7 +174,8 @@ def cases(tier):
                                'syntax': SYNTAXES[idx % 3]}
     # the same with a name that is also the name of a builtin the
     # expression language offers (as _.max, _.str, ...): an ordinary name
-    for name in ('max', 'str', 'len', '_n', 'Title', 'itemCount'):
+    for name in ('max', 'str', 'len', '_n', 'Title', 'itemCount', 'variable',
+                 'var1', 'inn', 'iffy', 'elsewhere', 'end'):
         for k in range(1, 7):
             for sub in itertools.combinations(SOURCES, k):
                 for kind in ('plain', 'callable'):
